@@ -174,3 +174,16 @@ package ipam
 //@   loop 1 invariant 0 <= i && i <= numAddresses && len(b.Unallocated) == numAddresses && len(b.Allocations) == numAddresses && (forall k int :: 0 <= k && k < i ==> b.Unallocated[k] == k) && (forall k int :: 0 <= k && k < numAddresses ==> b.Allocations[k] == nil)
 //@   loop 2 invariant 0 <= i && i <= rsvdAttr.StartOfBlock && len(b.Allocations) == numAddresses && len(b.Unallocated) == numAddresses - rsvdAttr.StartOfBlock - rsvdAttr.EndOfBlock && (forall k int :: 0 <= k && k < len(b.Unallocated) ==> b.Unallocated[k] == k + rsvdAttr.StartOfBlock) && (forall k int :: rsvdAttr.StartOfBlock <= k && k < numAddresses ==> b.Allocations[k] == nil)
 //@   loop 3 invariant 1 <= i && i <= rsvdAttr.EndOfBlock + 1 && len(b.Allocations) == numAddresses && len(b.Unallocated) == numAddresses - rsvdAttr.StartOfBlock - rsvdAttr.EndOfBlock && (forall k int :: 0 <= k && k < len(b.Unallocated) ==> b.Unallocated[k] == k + rsvdAttr.StartOfBlock) && (forall k int :: rsvdAttr.StartOfBlock <= k && k <= numAddresses - i ==> b.Allocations[k] == nil)
+
+//@ -- Destructive block operations (deleting a block, releasing its affinity) key off empty(): a block reported
+//@ -- empty holds no live allocation other than the Windows host reservations - in particular an allocation
+//@ -- without a handle counts as in use.
+//@ spec macro blkResv(b allocationBlock, i int) bool = b.AllocationBlock.Attributes[*b.AllocationBlock.Allocations[i]].HandleID != nil && strLower(*b.AllocationBlock.Attributes[*b.AllocationBlock.Allocations[i]].HandleID) == WindowsReservedHandle
+//@ func (allocationBlock).empty
+//@   property C19
+//@   option safety off
+//@   option absindex
+//@   option stable (*model.AllocationBlock).Allocations, (*model.AllocationBlock).Attributes, []*int, *int, (*model.AllocationAttribute).HandleID, *string
+//@   requires b.AllocationBlock != nil
+//@   ensures res ==> (forall i int :: 0 <= i && i < len(b.AllocationBlock.Allocations) && b.AllocationBlock.Allocations[i] != nil ==> blkResv(b, i))
+//@   loop 1 invariant -1 <= rangeindex && rangeindex < len(b.AllocationBlock.Allocations) && (forall i int :: 0 <= i && i <= rangeindex && b.AllocationBlock.Allocations[i] != nil ==> blkResv(b, i))
